@@ -8,7 +8,8 @@ Model:   spec/Canon.tla     the canonicalization algorithm of src/abg-ir.cc as a
                             very comparison; nothing tentative survives the outermost comparison): CanonIffBisim holds.
          CanonAsCoded.cfg   the algorithm as coded: TLC refutes CanonIffBisim; the counterexample (graph + order) is replayed on
                             the real library through the IR constructors (harness/canonapi.cc) and must be rejected there too.
-         CanonStale5.cfg    (thorough) cycle test and sticky flag repaired, outermost return as coded: refuted with 5 nodes.
+         CanonStale5.cfg    (thorough) cycle test repaired, class_decl pass guarded but the flag still sticky, outermost return as
+                            coded: refuted with 5 nodes (stale non-confirmed entries cost a type its canonical type).
          CanonMutant.cfg    vacuity guard: PropagateDespiteCycle (no dependency tracking, nothing cancelled) must be refuted.
 Replay:  (a) harness/irdump.cc dumps the loaded type graph of every campaign binary (TLC-generated programs of Abi.tla in
              1-3 translation units, hand-written multi-TU sources of render/canon_samples, every graph of Canon.tla rendered
@@ -82,7 +83,7 @@ def models(c):
     hold = ["Canon.cfg", "CanonPtr.cfg"] + (["CanonThorough.cfg", "CanonThoroughPtr.cfg", "CanonThorough5.cfg"] if c.thorough else [])
     refute = [("CanonAsCoded.cfg", "as coded (set-based cycle detection, sticky propagated flag, partial confirm/cancel at the outermost return)"),
               ("CanonMutant.cfg", "mutant PropagateDespiteCycle")] + \
-             ([("CanonStale5.cfg", "cycle test and sticky flag repaired, outermost return as coded (stale non-confirmed entries)")] if c.thorough else [])
+             ([("CanonStale5.cfg", "cycle test repaired, class_decl pass guarded, flag still sticky, outermost return as coded (stale non-confirmed entries)")] if c.thorough else [])
     w = max(2, vf.JOBS // 4)
     rs = vf.pmap(lambda cfg: vf.tlc_check("Canon.tla", cfg, timeout=1400, workers=w, heap="6g"), hold + [x[0] for x in refute], jobs=4)
     for cfg, r in zip(hold, rs):
